@@ -27,7 +27,8 @@ type Obligation struct {
 	CandModel                 string // model of the quantifier-free relaxation (candidate counterexample)
 	Static                    bool   // decided syntactically
 	ShortTimeout              bool
-	smtSliced, smtFull, smtQF, smtLin string
+	smtSliced, smtFull, smtQF, smtLin, smtANL string
+	anl                                       bool // render with nonlinear operations abstracted
 	Detail                    string
 }
 
